@@ -30,3 +30,24 @@ def pick(v, lo, hi):
 
 def pickb(b):
     return True if b else False
+
+
+class _Null:
+    def __enter__(self):
+        return self
+
+    def __exit__(self, *a):
+        return False
+
+
+def untraced():
+    """Context manager: run the enclosed code outside CrossHair's tracer.  ONLY for code whose inputs have all been made concrete
+    with pick()/pickb(): the solver still enumerates every combination allowed by the preconditions (path-tree exhaustion), but the
+    real code then runs natively on that concrete case (hundreds of times faster than traced execution)."""
+    try:
+        from crosshair.tracers import NoTracing, is_tracing
+        if is_tracing():
+            return NoTracing()
+    except Exception:
+        pass
+    return _Null()
